@@ -36,6 +36,7 @@ LEVEL_TEXT = (
     "and the new dimension after the target (or target_data for a bare array). The interpolant itself (np.interp) and dask column independence are trusted."
     " Target levels re-arranged on the way into / out of the kernel are decided on representative level vectors; the shortest profiles (two valid values) and the empty suffix are cases."
 )
+LEVEL_TEXT += " Also decided: with target_data omitted the caller's bypass_checks / mask_edges / suffix still reach the interpolation; a mask range initialised with infinities is read as such."
 LEVEL_NOTE = "Trusted: np.interp; numba = Python semantics. numba is absent here, so no pinned test executes transform.py at all."
 
 
